@@ -529,6 +529,7 @@ func (d *Datastore) runDeviationUpdate(ctx context.Context, dm map[string]sdcpb.
 			sp, err := d.schemaClient.ToPath(ctx, upd.GetPath())
 			if err != nil {
 				log.Errorf("%s: failed to convert cached path to xpath: %v", d.Name(), err)
+				continue
 			}
 
 			rsp := &sdcpb.WatchDeviationResponse{
